@@ -220,6 +220,7 @@ def run(ck):
     # linear ranges over binary64 (Model/Linspace.v, PrimFloat): the sequence the implementation materialises, the
     # published <var>_values and the elements, bit for bit
     n_or += linspace_oracle(ck, rng, 1500 if thorough else 400)
+    n_or += log_range_oracle(ck, rng, 300 if thorough else 80)
     ck.notes["direct_oracle_runs"] = n_or
     ck.cov["trusted_base"] = c01.TRUSTED
 
@@ -291,6 +292,57 @@ def stateful_element_oracle(ck, rng, n):
                           "explicit sequence t = %s; %s; run %d of one Pipeline object yields elements %s and t_values %s, the declared sequence gives %s"
                           % (vals, how, bad[0] + 1, outs[bad[0]][0], outs[bad[0]][1], want),
                           {"kind": "published-list-mutated", "how": how, "values": vals, "runs": [list(o[0]) for o in outs]})
+    # one in-memory configuration used for several builds (inspection, then a Pipeline, then another Pipeline): every build
+    # sweeps -- building must not take the sweep definition out of the caller's configuration
+    from semantiva.inspection import build_pipeline_inspection
+    cfg = [{"processor": "FloatValueDataSource", "parameters": {"value": 2.0}},
+           {"processor": "FloatMultiplyOperation",
+            "derive": {"parameter_sweep": {"parameters": {"factor": "t"}, "variables": {"t": {"values": [1.0, 2.0, 3.0]}}, "collection": "FloatDataCollection"}}}]
+    got = []
+    try:
+        build_pipeline_inspection(cfg)
+        for rep in range(3):
+            res = Pipeline(cfg).process(Payload(None, ContextType({})))
+            d = res.data
+            got.append(([e.data for e in d] if hasattr(d, "__iter__") else d.data, res.context.get_value("t_values")))
+            runs += 1
+    except Exception as ex:  # noqa
+        got.append(("raises", repr(ex)[:120]))
+    if got != [([2.0, 4.0, 6.0], [1.0, 2.0, 3.0])] * 3:
+        ck.fail_input("C03:sweep-depends-on-earlier-builds",
+                      "one configuration object inspected and then built three times: the builds yield %s, each must yield ([2.0, 4.0, 6.0], t_values [1.0, 2.0, 3.0])" % (got,),
+                      {"kind": "config-reused-for-several-builds", "builds": [list(g) for g in got]})
+    return runs
+
+
+def log_range_oracle(ck, rng, n):
+    """Log-scale ranges (not in the model: libm): the materialised sequence is geometric, lo * (hi/lo) ** (i/div) with div = steps-1
+    with the endpoint and steps without it, within a relative tolerance of 1e-9; one value per step; published as materialised."""
+    import math
+    import numpy as np
+    import semantiva.data_processors.parametric_sweep_factory as psf
+    runs = 0
+    for trial in range(n):
+        lo = rng.choice([1.0, 10.0, 0.001, 2.5, 1e-6, 300.0, rng.uniform(0.01, 50.0)])
+        hi = rng.choice([1000.0, 0.1, 7.0, 1e6, lo, rng.uniform(0.01, 5000.0)])
+        steps = rng.choice([1, 2, 3, 4, 5, 8])
+        e = rng.random() < 0.5
+        try:
+            with np.errstate(all="ignore"):
+                seqs, created = psf._materialize_sequences(vars={"t": psf.RangeSpec(lo, hi, steps, scale="log", endpoint=e)}, params={})
+            got = [float(x) for x in seqs["t"]]
+        except Exception as ex:  # noqa
+            ck.fail_input("C03:log-range-rejected", "log range lo=%r hi=%r steps=%d endpoint=%s: %r" % (lo, hi, steps, e, ex), {"lo": lo, "hi": hi, "steps": steps, "endpoint": e})
+            continue
+        runs += 1
+        div = (steps - 1) if e else steps
+        want = [lo * (hi / lo) ** (i / div) if div else lo for i in range(steps)]
+        ok = len(got) == steps and all(math.isclose(a, b, rel_tol=1e-9, abs_tol=0.0) for a, b in zip(got, want)) and [float(x) for x in created["t_values"]] == got
+        if not ok:
+            ck.fail_input("C03:log-range-values",
+                          "log range lo=%r hi=%r steps=%d endpoint=%s materialises %s, the documented geometric sequence is %s" % (lo, hi, steps, e, got[:6], want[:6]),
+                          {"kind": "log-range", "lo": lo, "hi": hi, "steps": steps, "endpoint": e, "got": got, "want": want})
+            break
     return runs
 
 
